@@ -49,9 +49,22 @@ type Knobs struct {
 	Persistent map[string]bool `json:"persistent,omitempty"`
 	StepCap    int             `json:"stepCap"`
 	RejectDev  bool            `json:"rejectDev,omitempty"` // devices refuse Sets containing DevRejectValue
+	// Align (C05): resolved by the runner - the value of the marked leaf is sized so that a validated document is an
+	// exact multiple of the plugin chunk size (or one byte off)
+	Align *AlignSpec `json:"align,omitempty"`
 	// LateAck: "<prim>/<op>/<key>" prefixes of Atomix calls whose answer is scheduled separately from their effect
 	LateAck []string `json:"lateAck,omitempty"`
 }
+
+// AlignSpec asks the C05 runner to size the leaf whose value starts with AlignMarker.
+type AlignSpec struct {
+	Pick int `json:"pick"` // which of the documents containing the marker (modulo their number)
+	Eps  int `json:"eps"`  // offset from the exact multiple
+	Mult int `json:"mult"` // 0: the next multiple of the chunk size, 1: one further
+}
+
+// AlignMarker starts the value of the leaf an AlignSpec sizes.
+const AlignMarker = "ALIGN-"
 
 // Plan is a complete run description.
 type Plan struct {
